@@ -40,7 +40,7 @@ pub fn spec_for(era: EraK) -> impl Strategy<Value = Spec> {
     )
         .prop_map(move |(inputs, outputs, mint, metadata, ttl_slack, validity_back, body_network_id, req_signers, plutus, legacy_outputs, (extra_fee, aux_form, ref_inputs, donation))| Spec {
             era, inputs, outputs, mint, metadata, ttl_slack, validity_back, body_network_id, req_signers, plutus, legacy_outputs, extra_fee, certs: vec![],
-            aux_form, early_multiasset: false, ref_inputs, donation,
+            aux_form, early_multiasset: false, ref_inputs, donation, pool_updates: vec![],
         })
 }
 
